@@ -107,6 +107,8 @@ def run_case(case, ctx):
         neg = rng.permutation(spec.n_spikes)[:3]
         spec.pc_features[neg, 0, :] = -np.abs(spec.pc_features[neg, 0, :]) - 0.1   # positive part vanishes
     factor = [1, 2.5, 1e-6][int(rng.integers(0, 3))]
+    if case['seed'][-1] % 7 == 5:
+        factor = -2.34e-6           # an inverting amplifier: the formula carries the sign
     curated = spec.curated
     desc = {'seed': case['seed'], 'opts': opts, 'factor': factor}
     ctx.count(1, key=hkey(tuple(case['seed'])), nontrivial=opts['spikeless'] != 'none' or curated,
@@ -148,6 +150,14 @@ def _check(m, spec, desc, ctx, f0, factor):
             data = np.asarray(m.sparse_clusters.data, dtype=np.float64)
             spikes = sc
             n_wav = data.shape[0]
+            if spec.curated and spec.template_ind is None and not spec.notes.get('nan_template'):
+                # where the dataset's files determine a cluster's waveform uniquely, the formula is evaluated on THAT waveform
+                # (not on what the model stored)
+                Dexp_, sure_ = rt.cluster_waveforms_expected(spec)
+                if Dexp_.shape == data.shape and np.isfinite(Dexp_).all():
+                    data = data.copy()
+                    data[sure_] = Dexp_[sure_]
+                    ctx.mon('cluster_waveforms_from_files', int(sure_.sum()))
         highest_spikeless = int(spikes.max()) + 1 < n_wav
         fu = {'use': use, 'highest_id_spikeless': bool(highest_spikeless)}
         r = call(m.get_amplitudes_true, sample2unit=factor, use=use)
@@ -177,7 +187,7 @@ def _check(m, spec, desc, ctx, f0, factor):
             V('amplitude_mismatch', 'use=%s rescaled waveforms shape %r != %r' % (use, phys.shape, U.shape), **fu)
         else:
             peak = ptp(phys.astype(np.float64), 1).max(axis=1)
-            dd = same(peak, exp_id, dtype=False, rtol=1e-4, atol=1e-12)
+            dd = same(peak, np.abs(exp_id), dtype=False, rtol=1e-4, atol=1e-12)       # (a peak-to-peak value has no sign)
             if dd:
                 V('amplitude_mismatch', 'use=%s peak amplitude of the rescaled waveforms: %s' % (use, dd), **fu)
             with np.errstate(all='ignore'):
@@ -263,3 +273,19 @@ def _check(m, spec, desc, ctx, f0, factor):
         dd = same(r.value, exp, dtype=False, rtol=1e-4, atol=1e-5 * max(1e-300, float(np.abs(spec.positions[:, 1]).max())))
         if dd:
             V('summary_mismatch', 'get_depths: %s' % dd, **ff)
+    # history: the caller reassigns spikes in the model's own cluster vector (manual curation works on it in place: a merge
+    # into an existing id and a split into a new id); the per-cluster means are those of the assignment as it is now
+    scm = getattr(m, 'spike_clusters', None)
+    if isinstance(scm, np.ndarray) and scm.flags.writeable and amps is not None and len(np.unique(scm)) >= 2 and desc['seed'][-1] % 2 == 0:
+        ids0 = np.unique(scm)
+        scm[scm == ids0[0]] = ids0[-1]
+        half = np.nonzero(scm == ids0[-1])[0][::2]
+        scm[half] = ids0[-1] + 2
+        now = np.asarray(scm).astype(np.int64)
+        ctx.mon('means_after_in_place_curation')
+        r = call(lambda: m.clusters_amplitudes)
+        exp = np.array([amps[now == i].mean() for i in np.unique(now)])
+        if not r.ok or same(r.value, exp, dtype=False, rtol=1e-6):
+            V('summary_mismatch' if r.ok else 'raised', 'clusters_amplitudes after the caller merged cluster %d into %d and split %d off: %s' % (
+                ids0[0], ids0[-1], ids0[-1] + 2, r.exc if not r.ok else same(r.value, exp, dtype=False, rtol=1e-6)),
+              function='clusters_amplitudes', after_curation=True)
